@@ -42,7 +42,8 @@ fn make_cand(ctx: &Ctx, dir: &Path, name: &str, c: Cand) {
             }
         }
         Cand::NoExec => {
-            std::fs::copy(&ctx.vchild, &p).unwrap();
+            // (the permission check comes before the format check: the content does not matter)
+            std::fs::write(&p, b"#!/bin/true\n").unwrap();
             std::fs::set_permissions(&p, std::fs::Permissions::from_mode(0o644)).unwrap();
         }
         Cand::Dir => std::fs::create_dir_all(&p).unwrap(),
